@@ -30,7 +30,7 @@ LEAN_PROPS = ["TsdateVerif.Props.C23"]
 LEAN_BUILD = ["TsdateVerif.Model.Proto", "TsdateVerif.Model.Blocks"]
 ASSUMPTIONS = [
     "the closing np.isclose assertion of reallocate_unphased is an arbitrary predicate in the theorems (statements are about runs that do not raise)",
-    "the two edges of a block are distinct (hypothesis of the share theorems; true of every block _block_singletons returned in this run: measured as hyp_block_edges_distinct)",
+    "the two edges of a block are distinct: hypothesis of placed_branch_gets_larger_share, discharged for the blocks _block_singletons computes by placed_branch_gets_larger_share_of_computed_blocks under 'the edge insertion index lists no edge twice' (tskit contract; hit rate measured as hyp_block_edges_distinct / blocks_seen)",
     "that mutation_phase is the fitted probability of the first block edge is EP's business (C18/C21), not proved here",
 ]
 
@@ -49,7 +49,7 @@ def prepare_b(ctx, res, stats, n_synth, n_fits):
         ts, info = bc.gen_diploid(rng, gaps=0.0, mpe=float(rng.choice([3, 8])))
         if ts.num_mutations == 0:
             continue
-        ri = int(rng.choice([1, 1, 2, 3, 5]))
+        ri = int(rng.choice([0, 1, 1, 2, 3, 5]))
         it = int(rng.choice([1, 3]))
         seg = bool(rng.random() < 0.5)
         rec = bc.run_fit(ts, info["mu"], singletons_phased=False, rescale_intervals=ri, rescale_iterations=it,
@@ -133,6 +133,15 @@ def one_input(rng, res, stats):
     if not r["ok"]:
         k = "F5" if r["f5"] else r["exc"]
         stats["date_raised"][k] = stats["date_raised"].get(k, 0) + 1
+        if not r["f5"]:
+            # did the exception come out of reallocate_unphased (its own assertions) on this valid input?
+            rec = bc.run_fit(ts, kw["mutation_rate"], singletons_phased=False, ep_iterations=kw["max_iterations"],
+                             max_shape=kw.get("max_shape", 1000.0), rescale_intervals=kw["rescaling_intervals"],
+                             rescale_iterations=kw.get("rescaling_iterations", 5), rescale_segsites=seg)
+            if rec["realloc"] and rec["realloc"][-1]["out"] is None:
+                res.violations.append(Violation(
+                    "reallocate-raised-on-valid-input",
+                    f"reallocate_unphased raised {rec['exc']} inside rescale() on a valid diploid input", replay))
         return
     _, fit = r["out"]
     bad, st = bc.check_counts(ts, fit, seg, rescaled)
